@@ -1,5 +1,7 @@
 """C16 — a failed parse applies exactly the preceding statements; errors say where."""
 import copy
+import importlib.util
+import sys
 
 from harness import common as C
 from harness import textm
@@ -15,7 +17,16 @@ RULE = ('parser/faults: a valid config (bindings, macros, blocks, imports, inclu
         'semantic bad block member, tokenizer fault on the following line); observed: exception class, (file, line) '
         'chain, SyntaxError.lineno, store and provenance afterwards, scope / lock / parse-context depth; the '
         'independent oracle is a SECOND fresh gin that parses only the statements preceding the fault. '
-        'non-trivial = fault at statement position >= 2 inside an included file or inside a block.')
+        'non-trivial = fault at statement position >= 2 inside an included file or inside a block. '
+        'import-raises (implementation only): the same include trees with the fault "import of a module that EXISTS and '
+        'raises while it is executed" (ValueError, AttributeError, RuntimeError, KeyError, TypeError, ZeroDivisionError, a '
+        'user-defined class; 7 spellings of the statement) or "import bound to the reserved symbol gin under dynamic '
+        'registration" (5 spellings), with / without skip_unknown: instance of the original class, original message first, '
+        'location chain, prefix applied. provenance-late-registration (implementation only): parses (strings, files, '
+        'includes) / gin.bind_parameter / clear_config interleaved with LATE registrations (functions, classes; by a call '
+        'between two steps or by an import statement in the middle of a parse; methods registered in the class body and '
+        'renamed when their class is registered): after every step the bindings and "# Set in" comments of '
+        'config_str(show_provenance=True) against the harness\'s own bookkeeping.')
 TRUSTED_BASE = [
     'Coq 8.16.1 kernel; vm_compute in the correspondence run; no native_compute',
     'hand-written models coq/Model/Parser.v + coq/Model/Stmt.v of gin/config_parser.py and gin/config.py:833-869,2366-2404,2492-2505, utils.py:21-60; tied to /repo by harness/textm.py + harness/props/c16.py',
@@ -66,11 +77,107 @@ FAULT_LINES = {
 }
 
 
-def render_file(rng_seed, items, fault=None):
+# ---- the family "an import statement whose module RAISES while it is executed" (implementation only: engine import-raises)
+class C16BackendError(RuntimeError):
+  """a user-defined exception class, as a third-party module would raise it"""
+
+
+BOOM_EXC = {'ValueError': ValueError, 'AttributeError': AttributeError, 'RuntimeError': RuntimeError, 'KeyError': KeyError,
+            'TypeError': TypeError, 'ZeroDivisionError': ZeroDivisionError, 'C16BackendError': C16BackendError}
+# statement form -> (statement text, name of the module whose execution raises); %s = the exception's name
+BOOM_FORMS = {
+    'plain': ('import c16boom_%s', 'c16boom_%s'),
+    'alias': ('import c16boom_%s as bm', 'c16boom_%s'),
+    'from-name': ('from c16boom_%s import thing', 'c16boom_%s'),
+    'submodule': ('import c16boompkg.m%s', 'c16boompkg.m%s'),
+    'submodule-alias': ('import c16boompkg.m%s as sm', 'c16boompkg.m%s'),
+    'from-package': ('from c16boompkg import m%s', 'c16boompkg.m%s'),
+    'from-submodule-name': ('from c16boompkg.m%s import thing as t', 'c16boompkg.m%s'),
+}
+# under dynamic registration the symbol `gin` is reserved: binding an import to it is gin's own ValueError
+RESERVED_FORMS = {'plain': 'import gin', 'dotted': 'import gin.config', 'alias': 'import pkg.mod as gin',
+                  'from-alias': 'from pkg import mod as gin', 'from-gin': 'from c16boompkg import gin'}
+DYN_HEADER = 'from __gin__ import dynamic_registration'
+IMPORT_FAULTS = {}        # kind -> {'exc': class name, 'module': raising module or None, 'dyn': needs dynamic registration}
+for _x in BOOM_EXC:
+  for _f, (_st, _mod) in BOOM_FORMS.items():
+    IMPORT_FAULTS['import-raises:%s:%s' % (_x, _f)] = {'exc': _x, 'module': _mod % _x, 'dyn': False}
+    FAULT_LINES['import-raises:%s:%s' % (_x, _f)] = _st % _x
+for _f, _st in RESERVED_FORMS.items():
+  IMPORT_FAULTS['import-reserved:%s' % _f] = {'exc': 'ValueError', 'module': None, 'dyn': True}
+  FAULT_LINES['import-reserved:%s' % _f] = _st
+
+
+def boom_message(modname):
+  return 'c16 backend failure while executing %s' % modname
+
+
+class BoomFinder:
+  """meta-path finder: c16boom_<Exc> and c16boompkg.m<Exc> exist and raise <Exc> while being executed; c16boompkg and
+  c16boompkg.gin are importable"""
+
+  def __init__(self):
+    self.raising = {}
+    for x, cls in BOOM_EXC.items():
+      self.raising['c16boom_' + x] = cls
+      self.raising['c16boompkg.m' + x] = cls
+    self.fine = {'c16boompkg': True, 'c16boompkg.gin': False}
+
+  def find_spec(self, name, path=None, target=None):
+    if name in self.raising:
+      return importlib.util.spec_from_loader(name, self)
+    if name in self.fine:
+      return importlib.util.spec_from_loader(name, self, is_package=self.fine[name])
+    return None
+
+  def create_module(self, spec):
+    return None
+
+  def exec_module(self, module):
+    cls = self.raising.get(module.__name__)
+    if cls is not None:
+      raise cls(boom_message(module.__name__))
+
+  def install(self):
+    self.remove()
+    sys.meta_path.insert(0, self)
+
+  def remove(self):
+    for f in [f for f in sys.meta_path if isinstance(f, BoomFinder)]:
+      sys.meta_path.remove(f)
+    for n in [n for n in sys.modules if n == 'c16boompkg' or n.startswith('c16boompkg.') or n.startswith('c16boom_')]:
+      sys.modules.pop(n, None)
+
+
+class BoomMachine(textm.TextMachine):
+  """the text machine with the raising modules importable; remembers the exception object of the last failing parse"""
+
+  def __init__(self, case):
+    super().__init__(case)
+    self.boom = BoomFinder()
+    self.boom.install()
+    self.last_exc = None
+    for fname in ('parse_config', 'parse_config_file'):
+      def wrapped(*a, _orig=getattr(self.gin, fname), **kw):
+        try:
+          return _orig(*a, **kw)
+        except Exception as e:  # pylint: disable=broad-except
+          self.last_exc = e
+          raise
+      setattr(self.gin, fname, wrapped)
+
+  def close(self):
+    self.boom.remove()
+    super().close()
+
+
+def render_file(rng_seed, items, fault=None, header=None):
   """fault = (index, kind, member_index).  Returns text, line of each item (1-based), line of the fault."""
   import random
   rng = random.Random(rng_seed)
   lines, item_lines, fault_line = [], [], None
+  if header:
+    lines.append(header)
 
   def junk():
     for _ in range(rng.choice([0, 0, 1])):
@@ -116,7 +223,8 @@ def build(abstract):
   texts, lines = {}, {}
   for name, items in abstract['files'].items():
     f = (fault[1], fault[2], fault[3]) if fault and fault[0] == name else None
-    t, il, fl = render_file('%s/%s' % (abstract['seed'], name), items, f)
+    t, il, fl = render_file('%s/%s' % (abstract['seed'], name), items, f,
+                            DYN_HEADER if name in (abstract.get('dyn') or []) else None)
     texts[name] = t
     lines[name] = (il, fl)
   info = {'lines': lines}
@@ -155,17 +263,18 @@ def build(abstract):
   info['chain'] = chain
   ptexts = {}
   for name, its in pre['files'].items():
-    ptexts[name] = render_file('%s/%s' % (abstract['seed'], name), its, None)[0]
+    ptexts[name] = render_file('%s/%s' % (abstract['seed'], name), its, None,
+                               DYN_HEADER if name in (abstract.get('dyn') or []) else None)[0]
   info['prefix_items'] = pre['files']
   return texts, ptexts, info
 
 
-def to_case(texts, entry, as_string):
+def to_case(texts, entry, as_string, sk=None):
   """entry file goes either as a bindings string or as a file of reader 1; other files on reader 1/2"""
   files = [{}, {}, {}]
   for n, t in texts.items():
     files[1 if hash(n) % 2 == 0 or True else 2][n] = t
-  calls = [['text', texts[entry], None]] if as_string else [['file', entry, None]]
+  calls = [['text', texts[entry], sk]] if as_string else [['file', entry, sk]]
   return {'regs': REGS, 'consts': ['KK'], 'files': files, 'prefixes': [''], 'modules': MODULES, 'calls': calls}
 
 
@@ -245,10 +354,19 @@ class FaultEngine(Engine):
           b['fault'][1] -= 1
         yield b
 
+  machine = textm.TextMachine
+
+  def expected_class(self, kind):
+    """name of the exception class a semantic fault of this kind raises (None: a syntactic fault)"""
+    return SEMANTIC.get(kind)
+
+  def extra_fails(self, ab, m, fault, info):
+    return []
+
   def impl(self, ab):
     texts, ptexts, info = build(ab)
-    case = to_case(texts, ab['entry'], ab.get('as_string'))
-    m = textm.TextMachine(case)
+    case = to_case(texts, ab['entry'], ab.get('as_string'), ab.get('sk'))
+    m = self.machine(case)
     fails, tags = [], []
     try:
       obs, stable = m.run()
@@ -268,10 +386,10 @@ class FaultEngine(Engine):
       nontrivial = (fault[1] >= 2 and fault[0] != ab['entry']) or kind.startswith('bad-block')
       if isinstance(res, T) and res.tag == 'Ok':
         fails.append(('fault-not-reported', 'fault %r was accepted' % (fault,)))
-      elif kind in SEMANTIC:
+      elif self.expected_class(kind) is not None:
         chain = [[('' if (ab.get('as_string') and f == ab['entry']) else f), l] for f, l in info['chain']]
-        if not (isinstance(res, T) and res.tag == 'Err' and res.args[0] == SEMANTIC[kind]):
-          fails.append(('error-class-changed', 'fault %s: expected %s, got %r' % (kind, SEMANTIC[kind], C.jsonable(res))))
+        if not (isinstance(res, T) and res.tag == 'Err' and res.args[0] == self.expected_class(kind)):
+          fails.append(('error-class-changed', 'fault %s: expected %s, got %r' % (kind, self.expected_class(kind), C.jsonable(res))))
         elif res.args[1] != chain:
           fails.append(('error-location-chain', 'fault %s at %r: message names %r, expected %r' %
                         (kind, fault, res.args[1], chain)))
@@ -279,8 +397,9 @@ class FaultEngine(Engine):
         if not (isinstance(res, T) and (res.tag == 'SyntaxError' or (res.tag == 'Err' and res.args[0] == 'TokenError'))):
           fails.append(('error-class-changed', 'syntactic fault %s: got %r' % (kind, C.jsonable(res))))
       # exactly the prefix has been applied: compare with a fresh gin given only the prefix
-      pcase = to_case(ptexts, ab['entry'], ab.get('as_string'))
-      pm = textm.TextMachine(pcase)
+      fails.extend(self.extra_fails(ab, m, fault, info))
+      pcase = to_case(ptexts, ab['entry'], ab.get('as_string'), ab.get('sk'))
+      pm = self.machine(pcase)
       try:
         pobs, _ = pm.run()
       finally:
@@ -327,6 +446,80 @@ class FaultEngine(Engine):
             fails.append(('provenance-wrong', '%r: recorded %r, last set at %r' % ((s, q2, p), got.get((s, q2, p)), loc)))
             break
     return {'obs': obs, 'fails': fails[:3], 'nontrivial': nontrivial, 'tags': tags}
+
+
+class ImportFaultEngine(FaultEngine):
+  """bad import in its less usual form: the module of an import statement EXISTS and raises while it is executed
+  (ValueError, AttributeError, RuntimeError, KeyError, TypeError, ZeroDivisionError, a user-defined class; every
+  spelling of the statement), or the statement binds the reserved symbol `gin` under dynamic registration (gin's own
+  ValueError); at every depth of the include tree, as a file or a bindings string, with and without skip_unknown (which
+  excuses an ImportError only).  The error must keep its class (an instance of the ORIGINAL class, original message
+  first) and name the file and line of the import statement, then every include statement above it; exactly the
+  preceding statements have taken effect.  Implementation only: the modules of Model/Stmt.v either exist or do not."""
+  name = 'import-raises'
+  model = False
+  machine = BoomMachine
+
+  def budget(self, tier):
+    return 160 if tier == 'quick' else 6000
+
+  def expected_class(self, kind):
+    return IMPORT_FAULTS[kind]['exc'] if kind in IMPORT_FAULTS else SEMANTIC.get(kind)
+
+  def corpus(self):
+    files = {'main.gin': [['bind', '', 'f', 'a', '1'], ['include', 'inc.gin'], ['bind', '', 'f', 'c', '3']],
+             'inc.gin': [['bind', '', 'f', 'b', '2'], ['include', 'sub/deep.gin'], ['bind', '', 'f', 'b', '4']],
+             'sub/deep.gin': [['macro', 'mac', '1'], ['import', 'other'], ['macro', 's1/mac', "'s'"]]}
+    base = {'files': files, 'entry': 'main.gin', 'seed': 2, 'as_string': False, 'sk': None, 'dyn': []}
+    out = []
+    forms = list(BOOM_FORMS)
+    for n, x in enumerate(BOOM_EXC):
+      form = forms[n % len(forms)]
+      out.append(dict(base, fault=['sub/deep.gin', 2, 'import-raises:%s:%s' % (x, form), 0]))
+      out.append(dict(base, fault=['inc.gin', 1 + n % 2, 'import-raises:%s:%s' % (x, forms[(n + 3) % len(forms)]), 0],
+                      sk=(True if n % 2 else None)))
+    out.append(dict(base, fault=['main.gin', 2, 'import-raises:ValueError:plain', 0]))
+    out.append(dict(base, fault=['main.gin', 1, 'import-raises:C16BackendError:from-package', 0], as_string=True))
+    for n, form in enumerate(RESERVED_FORMS):
+      out.append(dict(base, fault=['sub/deep.gin', 1 + n % 3, 'import-reserved:' + form, 0], dyn=['sub/deep.gin']))
+    out.append(dict(base, fault=['sub/deep.gin', 3, 'import-reserved:plain', 0], dyn=['sub/deep.gin'], sk=True))
+    return out
+
+  def gen(self, rng, tier):
+    ab = super().gen(rng, tier)
+    files = ab['files']
+    inner = [n for n in files if n != ab['entry']]
+    fname = rng.choice(inner) if inner and rng.random() < 0.7 else rng.choice(list(files))
+    kind = rng.choice(list(IMPORT_FAULTS)) if rng.random() < 0.8 else 'import-reserved:' + rng.choice(list(RESERVED_FORMS))
+    ab['dyn'] = []
+    if IMPORT_FAULTS[kind]['dyn']:
+      # under dynamic registration selectors resolve through the file's imports only: the file keeps its macros,
+      # imports and includes (what it includes is parsed with a table of its own)
+      files[fname] = [it for it in files[fname] if it[0] in ('macro', 'import', 'include')]
+      ab['dyn'] = [fname]
+    n = len(files[fname])
+    ab['fault'] = [fname, rng.randint(min(2, n), n) if rng.random() < 0.5 else rng.randint(0, n), kind, 0]
+    ab['sk'] = rng.choice([None, None, True, False])
+    return ab
+
+  def extra_fails(self, ab, m, fault, info):
+    kind = fault[2]
+    if kind not in IMPORT_FAULTS:
+      return []
+    e = m.last_exc
+    spec = IMPORT_FAULTS[kind]
+    cls = BOOM_EXC.get(spec['exc'], ValueError)
+    fails = []
+    if e is None:
+      return fails                   # 'fault-not-reported' has been recorded by the caller
+    if not isinstance(e, cls):
+      fails.append(('error-class-changed', 'fault %s: the module raises %s, the parse raised %r, which is no instance of it' %
+                    (kind, cls.__name__, type(e).__mro__)))
+    if spec['module']:
+      first = str(cls(boom_message(spec['module'])))
+      if not str(e).startswith(first):
+        fails.append(('error-message-lost', 'fault %s: the original message %r is not the beginning of %r' % (kind, first, str(e))))
+    return fails
 
 
 FULL = {'f': 'm.f', 'm.f': 'm.f', 'g': 'n.g', 'n.g': 'n.g', 'x.h': 'x.h', 'k': 'k'}
@@ -434,4 +627,416 @@ class ProvenanceEngine(Engine):
     return {'obs': obs, 'fails': fails[:3], 'nontrivial': nontrivial, 'tags': [cl[0] for cl in c['calls']]}
 
 
-ENGINES = [FaultEngine(), ProvenanceEngine()]
+# ---- provenance when configurables are registered LATE (between / in the middle of parses), methods renamed by their class
+LATE_SRC = """
+def early(a=0, b=0):
+  return (a, b)
+
+def late(a=0, b=0):
+  return (a, b)
+
+def late2(a=0, b=0):
+  return (a, b)
+
+class K:
+  def __init__(self, a=0, b=0):
+    self.ab = (a, b)
+  @gin.register
+  def meth(self, x=1, y=2):
+    return (x, y)
+  @staticmethod
+  @gin.register
+  def smeth(x=1, y=2):
+    return (x, y)
+
+class L:
+  def __init__(self, a=0, b=0):
+    self.ab = (a, b)
+  @gin.register
+  def lm(self, x=1, y=2):
+    return (x, y)
+
+class J:
+  def __init__(self, a=0, b=0):
+    self.ab = (a, b)
+  @gin.register
+  def jm(self, x=1, y=2):
+    return (x, y)
+"""
+LATE_MOD = 'c16mod'
+# entity -> (kind, owner class or None, own name, parameters)
+LATE_ENTS = {
+    'early': ('fn', None, 'early', ['a', 'b']), 'late': ('fn', None, 'late', ['a', 'b']), 'late2': ('fn', None, 'late2', ['a', 'b']),
+    'K': ('cls', None, 'K', ['a', 'b']), 'L': ('cls', None, 'L', ['a', 'b']), 'J': ('cls', None, 'J', ['a', 'b']),
+    'K.meth': ('meth', 'K', 'meth', ['x', 'y']), 'K.smeth': ('meth', 'K', 'smeth', ['x', 'y']),
+    'L.lm': ('meth', 'L', 'lm', ['x', 'y']), 'J.jm': ('meth', 'J', 'jm', ['x', 'y']),
+}
+LATE_TARGETS = ['late', 'late2', 'K', 'L']          # what a 'reg' step can register (early, J: registered at the start)
+LATE_APIS = ['register', 'external', 'configurable']
+LATE_PKGS = [None, None, 'c16pkg', 'c16pkg.sub']
+LATE_SCOPES = ['', '', 's1', 's1/s2']
+
+
+def late_renamed(reg, owner):
+  """registering a class with gin.register / gin.external_configurable renames the methods registered in its body to
+  <Class>.<method>; gin.configurable (which decorates the class in place) leaves them under their own names"""
+  return owner in reg and reg[owner][1] != 'configurable'
+
+
+def late_full(reg, ent):
+  """the full selector of an entity, given which targets are registered (target -> (module, api)); None: not registered"""
+  kind, owner, name, _ = LATE_ENTS[ent]
+  if kind == 'meth':
+    return (reg[owner][0] + '.' + owner + '.' + name) if late_renamed(reg, owner) else (LATE_MOD + '.' + name)
+  return (reg[ent][0] + '.' + name) if ent in reg else None
+
+
+def late_written(reg, ent, choice):
+  """(selector as a config writes it, whether it names a registered configurable now)"""
+  kind, owner, name, _ = LATE_ENTS[ent]
+  if kind == 'meth':
+    if choice == 'bare':
+      return name, not late_renamed(reg, owner)      # a renamed method must be written with its class name
+    if choice == 'qual':
+      return owner + '.' + name, late_renamed(reg, owner)
+    return late_full(reg, ent), True
+  if choice == 'full':
+    return (reg[ent][0] if ent in reg else LATE_MOD) + '.' + name, ent in reg
+  return name, ent in reg
+
+
+class RegFinder:
+  """import c16reg_<n> executes a registration (a module that registers its configurables when it is imported)"""
+
+  def __init__(self):
+    self.actions = {}
+
+  def find_spec(self, name, path=None, target=None):
+    if name in self.actions:
+      return importlib.util.spec_from_loader(name, self)
+    return None
+
+  def create_module(self, spec):
+    return None
+
+  def exec_module(self, module):
+    self.actions[module.__name__]()
+
+  def remove(self):
+    for f in [f for f in sys.meta_path if isinstance(f, RegFinder)]:
+      sys.meta_path.remove(f)
+    for n in [n for n in sys.modules if n.startswith('c16reg_')]:
+      sys.modules.pop(n, None)
+
+
+class LateRegistrationEngine(Engine):
+  """who set it last, while the set of registered configurables GROWS: functions and classes registered between two
+  parses / binds or by an import statement in the middle of a parse, and methods registered in the class body (before
+  their class, under a provisional selector) that are renamed to <Class>.<method> when the class is registered.  After
+  EVERY step config_str(show_provenance=True) must print exactly the bindings the harness's own bookkeeping holds,
+  under the current name of their configurable, each with the '# Set in <file>:<line>:' comment of the statement that
+  last set it (none when it was last set from Python); a binding to something not registered at that moment fails
+  there, with the location chain, the statements before it applied.  Implementation only: Model/Stmt.v registers
+  everything up front."""
+  name = 'provenance-late-registration'
+  model = False
+
+  def budget(self, tier):
+    return 200 if tier == 'quick' else 6000
+
+  def corpus(self):
+    return [
+        # a method bound under its provisional name by a file; then its class is registered; then it is set again
+        {'steps': [['parse', 'file', [['b', '', 'early', 'bare', 'a', 1, 1], ['b', '', 'K.meth', 'bare', 'x', 7, 0]]],
+                   ['reg', 'K', 'register', None],
+                   ['parse', 'text', [['b', '', 'K.meth', 'qual', 'y', 9, 0]]],
+                   ['parse', 'text', [['b', '', 'K.meth', 'qual', 'x', 8, 2]]]]},
+        # scoped, full provisional name, static method; the class is registered by an import in the middle of a later file
+        {'steps': [['parse', 'text', [['b', 's1', 'K.smeth', 'full', 'x', 3, 0], ['b', 's1/s2', 'K.meth', 'full', 'y', 4, 1],
+                                      ['b', '', 'late', 'bare', 'a', 5, 0], ['b', '', 'K.meth', 'bare', 'x', 6, 0]]],
+                   ['bind', 's1', 'K.meth', 'bare', 'x', 11],
+                   ['parse', 'file', [['b', '', 'L.lm', 'bare', 'x', 12, 0], ['r', 'K', 'external', 'c16pkg.sub', 1],
+                                      ['b', '', 'K', 'bare', 'a', 13, 0], ['r', 'late', 'configurable', None, 0],
+                                      ['b', 's1', 'K.smeth', 'qual', 'y', 14, 0], ['b', '', 'late', 'full', 'a', 15, 0]]],
+                   ['reg', 'L', 'configurable', 'c16pkg']]},
+        # set inside an included file, renamed later; set from Python, renamed; cleared
+        {'steps': [['parse', 'file', [['b', '', 'J.jm', 'qual', 'x', 1, 0],
+                                      ['i', [['b', '', 'L.lm', 'full', 'y', 2, 2], ['b', 's1', 'L.lm', 'bare', 'x', 3, 0]], 1],
+                                      ['b', '', 'L.lm', 'bare', 'x', 4, 0]]],
+                   ['bind', '', 'K.meth', 'full', 'y', 21],
+                   ['reg', 'L', 'external', None], ['reg', 'K', 'register', 'c16pkg'],
+                   ['parse', 'text', [['b', '', 'K.meth', 'bare', 'x', 5, 0], ['b', '', 'L.lm', 'qual', 'y', 6, 0],
+                                      ['b', '', 'L', 'full', 'b', 7, 0]]],
+                   ['clear'], ['parse', 'text', [['b', '', 'L.lm', 'full', 'x', 8, 1]]]]},
+    ]
+
+  def gen(self, rng, tier):
+    reg = {'early': (LATE_MOD, 'configurable'), 'J': (LATE_MOD, 'register')}
+
+    def binding():
+      for _ in range(8):
+        ent = rng.choice(list(LATE_ENTS))
+        choice = rng.choice(['bare', 'bare', 'qual', 'full'])
+        if late_written(reg, ent, choice)[1] or rng.random() < 0.08:
+          break
+      return [rng.choice(LATE_SCOPES), ent, choice, rng.choice(LATE_ENTS[ent][3]), rng.randint(0, 99)]
+
+    def registration():
+      left = [t for t in LATE_TARGETS if t not in reg]
+      if not left:
+        return None
+      t = rng.choice(left)
+      mod, api = rng.choice(LATE_PKGS), rng.choice(LATE_APIS)
+      reg[t] = (mod or LATE_MOD, api)
+      return [t, api, mod]
+
+    def items(depth):
+      out = []
+      for _ in range(rng.randint(1, 5)):
+        r = rng.random()
+        pad = rng.choice([0, 0, 1, 2])
+        if r < 0.17:
+          rg = registration()
+          if rg:
+            out.append(['r'] + rg + [pad])
+            continue
+        if r < 0.27 and depth == 0:
+          out.append(['i', items(1), pad])
+          continue
+        out.append(['b'] + binding() + [pad])
+      return out
+
+    steps = []
+    for _ in range(rng.randint(3, 8)):
+      r = rng.random()
+      if r < 0.22:
+        rg = registration()
+        if rg:
+          steps.append(['reg'] + rg)
+          continue
+      if r < 0.37:
+        steps.append(['bind'] + binding())
+      elif r < 0.41:
+        steps.append(['clear'])
+      else:
+        steps.append(['parse', rng.choice(['text', 'file']), items(0)])
+    return {'steps': steps}
+
+  def shrink(self, c):
+    steps = c['steps']
+    for i in range(len(steps)):
+      yield {'steps': steps[:i] + steps[i + 1:]}
+    for i, st in enumerate(steps):
+      if st[0] == 'parse':
+        for j in range(len(st[2])):
+          if len(st[2]) > 1:
+            yield {'steps': steps[:i] + [[st[0], st[1], st[2][:j] + st[2][j + 1:]]] + steps[i + 1:]}
+          it = st[2][j]
+          if it[0] == 'i':
+            for k in range(len(it[1])):
+              if len(it[1]) > 1:
+                yield {'steps': steps[:i] + [[st[0], st[1], st[2][:j] + [['i', it[1][:k] + it[1][k + 1:], it[2]]] + st[2][j + 1:]]] +
+                                steps[i + 1:]}
+
+  def impl(self, c):
+    gin = C.fresh_gin()
+    fails, tags = [], []
+    finder = RegFinder()
+    finder.remove()
+    sys.meta_path.insert(0, finder)
+    ns = {'gin': gin, '__name__': LATE_MOD}
+    exec(LATE_SRC, ns)  # pylint: disable=exec-used
+    files = {}
+    gin.config.register_file_reader(lambda path: textm.NamedStringIO(files[path], path), lambda path: path in files)
+    done = set()          # the implementation side: what has really been registered
+
+    def do_register(target, api, mod):
+      if target in done:
+        return
+      done.add(target)
+      obj = ns[target]
+      if api == 'register':
+        gin.register(obj, module=mod) if mod else gin.register(obj)
+      elif api == 'external':
+        gin.external_configurable(obj, module=mod) if mod else gin.external_configurable(obj)
+      else:
+        gin.configurable(module=mod)(obj) if mod else gin.configurable(obj)
+
+    # the harness's own bookkeeping
+    reg = {}              # target -> (module it was registered with, api)
+    want = {}             # (scope, entity, parameter) -> [value, None | (file shown, line)]
+    state = {'nontrivial': False}
+
+    def note_register(target, api, mod):
+      if target in reg:
+        return
+      reg[target] = (mod or LATE_MOD, api)
+      if api != 'configurable' and any(LATE_ENTS[e][1] == target and w[1] is not None for (_, e, _), w in want.items()):
+        state['nontrivial'] = True     # a binding set by a config statement lives through the rename of its method
+
+    do_register('early', 'configurable', None)
+    note_register('early', 'configurable', None)
+    do_register('J', 'register', None)
+    note_register('J', 'register', None)
+
+    def render(items, fname, uid):
+      """writes the statements of one file / string; returns [(item, line)]"""
+      lines, placed = [], []
+      for j, it in enumerate(items):
+        lines.extend(['', '# c'][:it[-1]] if it[-1] <= 2 else [''] * it[-1])
+        placed.append((it, len(lines) + 1))
+        if it[0] == 'b':
+          lines.append('%s%s.%s = %d' % (it[1] + '/' if it[1] else '', '\0%d' % len(placed), it[4], it[5]))
+        elif it[0] == 'r':
+          modname = 'c16reg_%s_%d' % (uid, j)
+          finder.actions[modname] = (lambda it=it: do_register(it[1], it[2], it[3]))
+          lines.append('import ' + modname)
+        else:
+          sub = 'inc_%s_%d.gin' % (uid, j)
+          lines.append("include '%s'" % sub)
+      return lines, placed
+
+    def simulate(items, shown, uid):
+      """Applies the statements to the bookkeeping in order, writing each selector as the CURRENT registrations require.
+      Returns (text, None | location chain of the expected failure)."""
+      lines, placed = render(items, shown, uid)
+      failed = None
+      for n, (it, ln) in enumerate(placed):
+        if failed is not None:
+          # never reached: any spelling will do
+          if it[0] == 'b':
+            lines[ln - 1] = lines[ln - 1].replace('\0%d' % (n + 1), late_written(reg, it[2], it[3])[0])
+          elif it[0] == 'i':
+            files['inc_%s_%d.gin' % (uid, n)] = simulate_dead(it[1])
+          continue
+        if it[0] == 'b':
+          sel, ok = late_written(reg, it[2], it[3])
+          lines[ln - 1] = lines[ln - 1].replace('\0%d' % (n + 1), sel)
+          if ok:
+            want[(it[1], it[2], it[4])] = [it[5], (shown, ln)]
+          else:
+            failed = [[shown, ln]]
+        elif it[0] == 'r':
+          note_register(it[1], it[2], it[3])
+        else:
+          sub = 'inc_%s_%d.gin' % (uid, n)
+          text, subfail = simulate(it[1], sub, '%s_%d' % (uid, n))
+          files[sub] = text
+          if subfail is not None:
+            failed = subfail + [[shown, ln]]
+      return '\n'.join(lines) + '\n', failed
+
+    def simulate_dead(items):
+      return ''.join('%s%s.%s = %d\n' % (it[1] + '/' if it[1] else '', late_written(reg, it[2], it[3])[0], it[4], it[5])
+                     for it in items if it[0] == 'b')
+
+    def check(step_no, what):
+      try:
+        text = gin.config_str(show_provenance=True)
+      except Exception as e:  # pylint: disable=broad-except
+        fails.append(('config-str-raised', 'after step %d (%s): %s: %s' % (step_no, what, type(e).__name__, str(e)[:200])))
+        return
+      lines = text.split('\n')
+      shown = {}
+      for i, l in enumerate(lines):
+        if ' = ' in l and not l.startswith('#'):
+          key, val = l.split(' = ', 1)
+          prev = lines[i - 1] if i else ''
+          scope, _, rest = key.rpartition('/')
+          sel, _, param = rest.rpartition('.')
+          shown[(scope, sel, param)] = (val, prev if prev.startswith('# Set in ') else None)
+      names = {e: late_full(reg, e) for e in LATE_ENTS}
+      used = set()
+      for (scope, ent, param), (val, loc) in want.items():
+        hits = [k for k in shown if k[0] == scope and k[2] == param and
+                (names[ent] == k[1] or names[ent].endswith('.' + k[1])) and
+                sum(1 for f in names.values() if f and (f == k[1] or f.endswith('.' + k[1]))) == 1]
+        exp = None if loc is None else '# Set in %s:%d:' % (loc[0] or 'bindings string', loc[1])
+        if len(hits) != 1:
+          fails.append(('binding-not-printed', 'after step %d (%s): %s%s.%s = %r is bound (last set at %r) but config_str prints '
+                        '%r' % (step_no, what, scope + '/' if scope else '', names[ent], param, val, loc, sorted(shown))))
+          return
+        used.add(hits[0])
+        gval, gcom = shown[hits[0]]
+        if gval != '%d' % val:
+          fails.append(('binding-value-wrong', 'after step %d (%s): %s printed with value %r, last set to %r at %r' %
+                        (step_no, what, hits[0], gval, val, loc)))
+          return
+        if gcom != exp:
+          fails.append(('provenance-comment-wrong', 'after step %d (%s): %s%s.%s = %d is printed under the comment %r; it was last '
+                        'set by %s, so the comment must be %r' %
+                        (step_no, what, scope + '/' if scope else '', hits[0][1], param, val, gcom,
+                         'gin.bind_parameter' if loc is None else 'the statement at %r line %d' % (loc[0] or 'bindings string', loc[1]),
+                         exp)))
+          return
+      extra = sorted(set(shown) - used)
+      if extra:
+        fails.append(('unset-binding-printed', 'after step %d (%s): config_str prints %r, which no applied statement set' %
+                      (step_no, what, extra)))
+
+    try:
+      check(0, 'start')
+      for n, st in enumerate(c['steps'], 1):
+        if fails:
+          break
+        tags.append(st[0])
+        if st[0] == 'reg':
+          do_register(st[1], st[2], st[3])
+          note_register(st[1], st[2], st[3])
+          what = 'registering %s' % st[1]
+        elif st[0] == 'clear':
+          gin.clear_config()
+          want.clear()
+          what = 'clear_config'
+        elif st[0] == 'bind':
+          sel, ok = late_written(reg, st[2], st[3])
+          key = '%s%s.%s' % (st[1] + '/' if st[1] else '', sel, st[4])
+          what = 'bind_parameter(%r)' % key
+          try:
+            gin.bind_parameter(key, st[5])
+            raised = None
+          except Exception as e:  # pylint: disable=broad-except
+            raised = e
+          if ok:
+            want[(st[1], st[2], st[4])] = [st[5], None]
+          if ok != (raised is None):
+            fails.append(('bind-outcome', 'step %d: %s with %r registered: %s' %
+                          (n, what, reg, 'accepted' if raised is None else 'raised %s: %s' % (type(raised).__name__, str(raised)[:150]))))
+            break
+        else:
+          shown = '' if st[1] == 'text' else 'q%d.gin' % n
+          text, failed = simulate(st[2], shown, str(n))
+          what = 'parsing %r' % text
+          try:
+            if st[1] == 'text':
+              gin.parse_config(text)
+            else:
+              files[shown] = text
+              gin.parse_config_file(shown)
+            raised = None
+          except Exception as e:  # pylint: disable=broad-except
+            raised = e
+          if (failed is None) != (raised is None):
+            fails.append(('parse-outcome', 'step %d: %s with %r registered: %s, the harness expects %s' %
+                          (n, what, reg, 'accepted' if raised is None else 'raised %s: %s' % (type(raised).__name__, str(raised)[:200]),
+                           'success' if failed is None else 'an unknown configurable at %r' % failed)))
+            break
+          if raised is not None:
+            tags.append('failing-parse')
+            o = textm.err_obs(raised)
+            if not (o.tag == 'Err' and o.args[0] == 'ValueError'):
+              fails.append(('error-class-changed', 'step %d: %s: an unregistered configurable must be a ValueError, got %r' %
+                            (n, what, C.jsonable(o))))
+            elif o.args[1] != failed:
+              fails.append(('error-location-chain', 'step %d: %s: message names %r, the offending statement is at %r' %
+                            (n, what, o.args[1], failed)))
+          if set(reg) != done:
+            fails.append(('harness-registration-bookkeeping', 'step %d: registered %r, bookkeeping %r' % (n, sorted(done), sorted(reg))))
+            break
+        check(n, what)
+    finally:
+      finder.remove()
+    return {'obs': T('Done'), 'fails': fails[:3], 'nontrivial': state['nontrivial'], 'tags': tags}
+
+
+ENGINES = [FaultEngine(), ProvenanceEngine(), ImportFaultEngine(), LateRegistrationEngine()]
